@@ -9,6 +9,7 @@ CONSTANTS
   MaxStop = 2
   MaxTrunc = 1
   TruncAll = TRUE
+  AllowEagerPad = TRUE
   Bug_TrailerThresholdOffByOne = FALSE
   Bug_NoOffsetRestoreOnReopen = FALSE
   Bug_ReaderSplicesFragments = FALSE
